@@ -22,8 +22,8 @@ func TestVerif_C12_Storage(t *testing.T) {
 		"generated worlds (<=6 namespaces on <=3 levels, some with their own shamir seal; sibling, multi-segment and equally named mounts of the recording backend / kv / auth type; remounts inside and across namespaces, unmount + re-use of the path, seal/unseal cycles) serving a request mix of hostile storage calls made by a backend on its req.Storage (.., absolute, //, encoded, other mounts' uuids and real keys, core keys, long), hostile data paths, kv, login, cubbyhole and foreign-token requests in every namespace spelling (header / path / split); every physical operation of a request is classified against the storage prefixes read from the running router and every response is scanned for data or names written through another mount; a request is non-trivial when its client-chosen key resolves outside the mount prefix, when it is served while a namespace is sealed, when it uses a token of another namespace, or when it follows a remount / path re-use")
 	defer r.Write(t)
 	r.Note("observation outside C12: a remount into another namespace (Core.moveStorage) does not terminate, holding mountsLock, when the mount's storage holds a key with an empty path segment (a//b, /a, a/), because listed names are re-joined with path.Join; the workload therefore moves only mounts that never stored such a key across namespaces")
-	topos := kit.N(4, 40)
-	reqs := kit.N(500, 2000)
+	topos := kit.N(10, 64)
+	reqs := kit.N(800, 2500)
 	for ti := 0; ti < topos; ti++ {
 		if ti%shards != shard {
 			continue
@@ -115,6 +115,7 @@ func c12StorageCase(t *testing.T, r *kit.Result, rng *kit.Rand, caseID string, t
 		}
 	}
 	if s.sealedNS != nil {
+		s.unsealAt = 1 << 30
 		s.endSeal()
 	}
 	r.Eval(1)
@@ -459,7 +460,7 @@ func (s *c12StorageRun) intoSealed() {
 	S := s.sealedNS
 	var targets []*c12Mount
 	for _, m := range s.mounts {
-		if !m.Dead && m.NS != nil && m.NS.under(S) && (m.Type == "verifrec" || m.Type == "kv" || m.Cubby) {
+		if !m.Dead && m.NS != nil && m.NS.under(S) && m.NS.effSealed() && (m.Type == "verifrec" || m.Type == "kv" || m.Cubby) {
 			targets = append(targets, m)
 		}
 	}
@@ -509,12 +510,17 @@ func (s *c12StorageRun) intoSealed() {
 
 func (s *c12StorageRun) endSeal() {
 	S := s.sealedNS
-	s.sealedNS = nil
 	if !s.unsealTree(S) {
-		s.r.Inconc("[%s] could not unseal %q again", s.caseID, S.Path)
-		s.failed = true
+		// Observation outside C12: while a namespace is sealed its sys/ mount is not in
+		// the router, so the parent may mount over the namespace's path; the namespace
+		// then cannot be unsealed ("failed to setup mount table") until that mount is
+		// gone. The namespace simply stays sealed in the model and is retried later.
+		s.r.Count("namespace_unseal_failed", 1)
+		s.r.Note("[%s] unsealing %q failed and is retried later (last step: %s)", s.caseID, S.Path, s.steps[len(s.steps)-1])
+		s.unsealAt = s.iter + 40
 		return
 	}
+	s.sealedNS = nil
 	s.sync()
 	for _, m := range s.mounts {
 		if m.NS != nil && m.NS.under(S) && !m.Dead {
